@@ -22,6 +22,24 @@ mitigators, evaluates the real `fairlearn.metrics` functions on their (expected)
   X1.grid-selection            C09.selected_minimises_tradeoff,          best_idx_ minimises the trade-off; cw = 1: smallest
                                C09.selected_min_max_gamma                max gamma among the trained predictors
 
+Additions of work package L3 (same relation names, so that the wired checks of C06 / C08 / C09 see them):
+  X1.constraint-vs-metric      C06.erp_difference_le_of_constraint       ErrorRateParity: accuracy_score_difference /
+                                                                         zero_one_loss_difference (to_overall == max gamma,
+                                                                         between_groups <= 2 eps*)
+                               C06.eopp/fpr/eodds_ratio_ge_of_constraint ratio moments for TPR / FPR / EO: equal_opportunity_ratio,
+                                                                         false_positive_rate_ratio, equalized_odds_ratio
+                                                                         (worst_case) >= the proved constants
+                               C06.*_in_stratum, erp_constraint_bounds   control features (two strata, one control value contains
+                                                                         a comma and the text ",label=1"): every bound per stratum
+  X1.gamma-dictionary          C06.errorRate_gamma_hard                  ErrorRate(costs).gamma(h) vs the exact cost-weighted error;
+                                                                         ErrorRateParity gamma vs exact group ERROR rates
+  X1.eg-certificate-vs-metric  C08.saddle_error                          exact cost-weighted error of the returned mixture <= error of
+                                                                         every feasible classifier of the class + 2 best_gap_
+                               C08.eg_tpr/fpr/eo_difference_le           as before, now also with control features / ErrorRateParity /
+                                                                         cost-weighted objectives, and a HARD stream (tag eg-hard:*):
+                                                                         barely feasible problems, eps <= 1/25, max_iter <= 8
+In every case `check_grid` also evaluates two random hard predictors against the OTHER moments (`direct:*` tags).
+
 Exact side: `fractions.Fraction` (group rates, the bounds).  Float side: tolerance TOL on every compared float.
 A counterexample to a proved inequality = model/code mismatch or a defect: printed with the full case, exit 1.
 The functions `check_*` return a list of (relation, message) so that the C06 / C08 / C04 / C09 checks can call them.
@@ -38,22 +56,29 @@ TOL = 1e-9
 
 
 # ------------------------------------------------------------------------------------------- data
+STRATA = ["x", "y,label=1"]      # the second control value contains a comma and a look-alike suffix
+MOMENTS = ["dp", "tpr", "fpr", "eo", "erp"]
+
+
 def gen_case(rng):
-    """random dataset; every group has both labels (quantifier of C04/C06X coverage hypotheses)"""
+    """random dataset; every group (of every control stratum) has both labels (quantifier of C04/C06X coverage
+    hypotheses)"""
     ngroups = rng.choice([2, 2, 3])
     groups = ["a", "b", "c"][:ngroups]
     k = rng.choice([2, 3, 4])
+    use_cf = rng.random() < 0.3
     rows = []
-    for g in groups:
-        m = rng.randint(2, 6)
-        ys = [0, 1] + [rng.randint(0, 1) for _ in range(m - 2)]
-        rng.shuffle(ys)
-        for yv in ys:
-            rows.append((rng.randrange(k), yv, g))
+    for st in (STRATA if use_cf else [None]):
+        for g in groups:
+            m = rng.randint(2, 4 if use_cf else 6)
+            ys = [0, 1] + [rng.randint(0, 1) for _ in range(m - 2)]
+            rng.shuffle(ys)
+            for yv in ys:
+                rows.append((rng.randrange(k), yv, g, st))
     rng.shuffle(rows)
-    return {
+    case = {
         "x": [r[0] for r in rows], "y": [r[1] for r in rows], "sf": [r[2] for r in rows],
-        "moment": rng.choice(["dp", "dp", "tpr", "fpr", "eo"]),
+        "moment": rng.choice(["dp", "dp", "tpr", "fpr", "eo", "erp", "erp"]),
         "eps": rng.choice(["1/20", "1/10", "1/5", "1/4"]),
         "ratio": rng.choice([None, None, "1/2", "3/4", "9/10"]),
         "grid_size": rng.choice([3, 5, 8]),
@@ -65,12 +90,48 @@ def gen_case(rng):
         "thr_grid": rng.choice([4, 10, 100]),
         "scores": [str(F(rng.randrange(0, 9), 8)) for _ in rows],
     }
+    if use_cf:
+        case["cf"] = [r[3] for r in rows]
+    # ErrorRate costs (fp, fn), both <= 1 so that errors stay in [0,1] (hypothesis of C08.saddle_violation)
+    case["costs"] = rng.choice([None, None, ["1", "1/2"], ["1/2", "1"], ["1", "1/4"], ["1/4", "1"], ["0", "1"], ["1", "0"]])
+    case["hs"] = [[rng.randint(0, 1) for _ in rows] for _ in range(2)]
+    # a nearly constant predictor (1 everywhere but on one or two rows): small gamma, so that the ratio bounds
+    # r(r mu - eps*)/(mu + eps*) are POSITIVE and the ratio relations are not vacuous
+    near = [1] * len(rows)
+    for _ in range(rng.choice([1, 1, 2])):
+        near[rng.randrange(len(rows))] = 0
+    case["hs"].append(near)
+    case["direct_ratio"] = rng.choice([None, "1/2", "3/4", "9/10"])
+    case["hard"] = gen_hard(rng)
+    return case
+
+
+def gen_hard(rng):
+    """barely feasible problems for ExponentiatedGradient: the feature determines the group (so the accurate
+    classifiers are maximally unfair and, for small eps, only mixtures close to the constants are feasible), labels
+    strongly correlated with the group, tiny eps, very few iterations"""
+    groups = ["a", "b"] if rng.random() < 0.7 else ["a", "b", "c"]
+    rows = []
+    for gi, g in enumerate(groups):
+        m = rng.randint(3, 6)
+        p_major = 1 if gi % 2 == 0 else 0
+        ys = [0, 1] + [p_major if rng.random() < 0.85 else 1 - p_major for _ in range(m - 2)]
+        for yv in ys:
+            bit = rng.randint(0, 1) if rng.random() < 0.4 else 0
+            rows.append((2 * gi + bit, yv, g))
+    rng.shuffle(rows)
+    return {"x": [r[0] for r in rows], "y": [r[1] for r in rows], "sf": [r[2] for r in rows],
+            "moment": rng.choice(["dp", "dp", "eo", "tpr", "erp"]),
+            "eps": rng.choice(["1/100", "1/50", "1/25"]),
+            "max_iter": rng.choice([1, 2, 3, 5, 8]),
+            "eta0": rng.choice([2.0, 2.0, 0.5, 8.0]),
+            "costs": None}
 
 
 def mk_moment(name, eps=None, ratio=None):
     import fairlearn.reductions as red
     cls = {"dp": red.DemographicParity, "tpr": red.TruePositiveRateParity, "fpr": red.FalsePositiveRateParity,
-           "eo": red.EqualizedOdds}[name]
+           "eo": red.EqualizedOdds, "erp": red.ErrorRateParity}[name]
     if ratio is not None:
         return cls(ratio_bound=float(F(ratio)), ratio_bound_slack=float(F(eps)))
     return cls(difference_bound=float(F(eps)))
@@ -82,88 +143,194 @@ def containers(case):
     return X, pd.Series(case["y"]), pd.Series(case["sf"])
 
 
+def fit_kwargs(case):
+    import pandas as pd
+    _, _, sf = containers(case)
+    kw = {"sensitive_features": sf}
+    if case.get("cf") is not None:
+        kw["control_features"] = pd.Series(case["cf"])
+    return kw
+
+
 # ------------------------------------------------------------------------------------------- exact oracle
 def label_events(moment):
     """(event name in the moment's index, label selected or None)"""
-    return {"dp": [("all", None)], "tpr": [("label=1", 1)], "fpr": [("label=0", 0)],
+    return {"dp": [("all", None)], "erp": [("all", None)], "tpr": [("label=1", 1)], "fpr": [("label=0", 0)],
             "eo": [("label=0", 0), ("label=1", 1)]}[moment]
 
 
-def exact_rates(case, h, lab):
-    """exact mean of h over the rows with label `lab` (None: all rows): per group and overall"""
-    sel = [i for i, yv in enumerate(case["y"]) if lab is None or yv == lab]
+def strata_of(case):
+    return sorted(set(case["cf"])) if case.get("cf") is not None else [None]
+
+
+def event_name(stratum, ev):
+    return ev if stratum is None else f"control={stratum},{ev}"
+
+
+def utility(case, h, moment):
+    """the quantity whose group means the moment constrains: the prediction, or for ErrorRateParity the error
+    indicator |h - y| (= y(1-h) + (1-y)h, linear in h, so also right for expected predictions)"""
+    if moment == "erp":
+        return [F(yv) * (1 - F(p)) + (1 - F(yv)) * F(p) for yv, p in zip(case["y"], h)]
+    return [F(p) for p in h]
+
+
+def exact_rates(case, h, lab, stratum=None, moment="dp"):
+    """exact mean of the utility over the rows of `stratum` (None: no control features) with label `lab` (None: all
+    labels): per group and overall"""
+    u = utility(case, h, moment)
+    cf = case.get("cf")
+    sel = [i for i, yv in enumerate(case["y"])
+           if (lab is None or yv == lab) and (stratum is None or cf[i] == stratum)]
     per = {}
     for g in sorted(set(case["sf"])):
         idx = [i for i in sel if case["sf"][i] == g]
         if idx:
-            per[g] = sum(F(h[i]) for i in idx) / len(idx)
-    allr = sum(F(h[i]) for i in sel) / len(sel) if sel else None
+            per[g] = sum(u[i] for i in idx) / len(idx)
+    allr = sum(u[i] for i in sel) / len(sel) if sel else None
     return per, allr
+
+
+def exact_gamma(case, h, moment, ratio=None):
+    """the whole gamma vector from first principles: {(sign, event, group): Fraction}"""
+    r = F(ratio) if ratio is not None else F(1)
+    out = {}
+    for st in strata_of(case):
+        for ev, lab in label_events(moment):
+            per, allr = exact_rates(case, h, lab, st, moment)
+            for g, v in per.items():
+                out[("+", event_name(st, ev), g)] = r * v - allr
+                out[("-", event_name(st, ev), g)] = r * allr - v
+    return out
+
+
+def exact_error(case, h, costs=None):
+    """ErrorRate(costs).gamma from first principles (h may be expected predictions)"""
+    fp, fn = (F(1), F(1)) if not costs else (F(costs[0]), F(costs[1]))
+    n = len(case["y"])
+    return sum(fn * F(yv) * (1 - F(p)) + fp * (1 - F(yv)) * F(p) for yv, p in zip(case["y"], h)) / n
+
+
+def mk_objective(costs):
+    import fairlearn.reductions as red
+    if not costs:
+        return red.ErrorRate()
+    return red.ErrorRate(costs={"fp": float(F(costs[0])), "fn": float(F(costs[1]))})
 
 
 def real_gamma(moment_obj, case, h):
     import numpy as np
-    X, y, sf = containers(case)
-    moment_obj.load_data(X, y, sensitive_features=sf)
+    X, y, _ = containers(case)
+    moment_obj.load_data(X, y, **fit_kwargs(case))
     hv = np.asarray([float(v) for v in h])
     return moment_obj.gamma(lambda _X: hv), moment_obj.bound()
 
 
 # ------------------------------------------------------------------------------------------- relation 1 + dictionary
-def check_constraint_vs_metric(case, h, moment, ratio=None, tag=""):
-    """h: hard 0/1 predictions on the training rows.  eps* = max(real gamma) is the tightest satisfied slack."""
-    import numpy as np
+def named_metrics(moment, ratio):
+    """(name, function(y, h, sf, method) -> float) of the user-facing metrics the composition theorems are about"""
     import fairlearn.metrics as fm
+    if ratio is None:
+        return {
+            "dp": [("demographic_parity_difference", lambda y, h, sf, m: fm.demographic_parity_difference(y, h, sensitive_features=sf, method=m))],
+            "tpr": [("equal_opportunity_difference", lambda y, h, sf, m: fm.equal_opportunity_difference(y, h, sensitive_features=sf, method=m))],
+            "fpr": [("false_positive_rate_difference", lambda y, h, sf, m: fm.false_positive_rate_difference(y, h, sensitive_features=sf, method=m))],
+            "eo": [("equalized_odds_difference", lambda y, h, sf, m: fm.equalized_odds_difference(y, h, sensitive_features=sf, method=m, agg="worst_case")),
+                   ("equal_opportunity_difference", lambda y, h, sf, m: fm.equal_opportunity_difference(y, h, sensitive_features=sf, method=m))],
+            "erp": [("accuracy_score_difference", lambda y, h, sf, m: fm.accuracy_score_difference(y, h, sensitive_features=sf, method=m)),
+                    ("zero_one_loss_difference", lambda y, h, sf, m: fm.zero_one_loss_difference(y, h, sensitive_features=sf, method=m))],
+        }[moment]
+    return {
+        "dp": [("demographic_parity_ratio", lambda y, h, sf, m: fm.demographic_parity_ratio(y, h, sensitive_features=sf, method=m))],
+        "tpr": [("equal_opportunity_ratio", lambda y, h, sf, m: fm.equal_opportunity_ratio(y, h, sensitive_features=sf, method=m))],
+        "fpr": [("false_positive_rate_ratio", lambda y, h, sf, m: fm.false_positive_rate_ratio(y, h, sensitive_features=sf, method=m))],
+        "eo": [("equalized_odds_ratio", lambda y, h, sf, m: fm.equalized_odds_ratio(y, h, sensitive_features=sf, method=m, agg="worst_case"))],
+        "erp": [],
+    }[moment]
+
+
+def check_constraint_vs_metric(case, h, moment, ratio=None, tag="", stats=None):
+    """h: hard 0/1 predictions on the training rows.  eps* = max(real gamma) is the tightest satisfied slack.
+    With control features every bound is checked per stratum (on the rows of that stratum)."""
+    import numpy as np
     probs = []
     gam, _ = real_gamma(mk_moment(moment, case["eps"], ratio), case, h)
     r = F(ratio) if ratio is not None else F(1)
-    # dictionary: gamma[+,e,g] = r*rate_eg - rate_e ; gamma[-,e,g] = r*rate_e - rate_eg  (exact Fractions)
-    epsx = None
-    for ev, lab in label_events(moment):
-        per, allr = exact_rates(case, h, lab)
-        for g, v in per.items():
-            for sign, want in (("+", r * v - allr), ("-", r * allr - v)):
-                got = float(gam[(sign, ev, g)])
-                if abs(got - float(want)) > TOL:
-                    probs.append(("X1.gamma-dictionary", f"{tag} gamma[{sign},{ev},{g}]={got!r} expected {want}"))
-                epsx = want if epsx is None else max(epsx, want)
-    if probs:
+    # dictionary: gamma[+,e,g] = r*rate_eg - rate_e ; gamma[-,e,g] = r*rate_e - rate_eg  (exact Fractions; for
+    # ErrorRateParity the rates are ERROR rates)
+    want = exact_gamma(case, h, moment, ratio)
+    if len(gam) != len(want):
+        probs.append(("X1.gamma-dictionary", f"{tag} {moment}: gamma has {len(gam)} entries, expected {len(want)}: {sorted(want)}"))
         return probs, None
+    for key, w in want.items():
+        try:
+            got = float(gam[key])
+        except KeyError:
+            probs.append(("X1.gamma-dictionary", f"{tag} {moment}: gamma has no entry {key}"))
+            continue
+        if abs(got - float(w)) > TOL:
+            probs.append(("X1.gamma-dictionary", f"{tag} {moment} gamma[{key[0]},{key[1]},{key[2]}]={got!r} expected {w}"))
+    # (no early exit: the metric-level relations below are evaluated with the implementation's own gamma even when the
+    # dictionary already failed, so that a defect is reported at the level of every theorem it breaks)
+    epsx = max(want.values())
     eps_star = float(max(gam))
     y, sf = np.asarray(case["y"]), np.asarray(case["sf"])
     hp = np.asarray([int(v) for v in h])
-    if ratio is None:
-        # the composition theorems are about what fairlearn.metrics returns for these predictions
-        metrics = {
-            "dp": [("demographic_parity_difference", lambda m: fm.demographic_parity_difference(y, hp, sensitive_features=sf, method=m))],
-            "tpr": [("equal_opportunity_difference", lambda m: fm.equal_opportunity_difference(y, hp, sensitive_features=sf, method=m))],
-            "fpr": [("false_positive_rate_difference", lambda m: fm.false_positive_rate_difference(y, hp, sensitive_features=sf, method=m))],
-            "eo": [("equalized_odds_difference", lambda m: fm.equalized_odds_difference(y, hp, sensitive_features=sf, method=m, agg="worst_case")),
-                   ("equal_opportunity_difference", lambda m: fm.equal_opportunity_difference(y, hp, sensitive_features=sf, method=m))],
-        }[moment]
-        for name, fn in metrics:
-            d_ov, d_bt = float(fn("to_overall")), float(fn("between_groups"))
-            if not d_ov <= eps_star + TOL:
-                probs.append(("X1.constraint-vs-metric", f"{tag} {name}(to_overall)={d_ov!r} > eps*={eps_star!r}"))
-            if not d_bt <= 2 * eps_star + TOL:
-                probs.append(("X1.constraint-vs-metric", f"{tag} {name}(between_groups)={d_bt!r} > 2 eps*={2 * eps_star!r}"))
-            if name != "equal_opportunity_difference" or moment == "tpr":
-                # tightness: the to_overall difference IS the largest gamma entry
-                if abs(d_ov - eps_star) > TOL:
-                    probs.append(("X1.constraint-vs-metric", f"{tag} {name}(to_overall)={d_ov!r} != max gamma={eps_star!r}"))
-    elif moment == "dp":
-        per, m = exact_rates(case, h, None)
-        if m > 0:
-            e = max(F(0), epsx)          # the theorem needs eps >= 0; gamma <= max(gamma, 0) entrywise
-            lo_bt = r * (r * m - e) / (m + e)
-            lo_ov = (r * m - e) / m
-            r_bt = float(fm.demographic_parity_ratio(y, hp, sensitive_features=sf, method="between_groups"))
-            r_ov = float(fm.demographic_parity_ratio(y, hp, sensitive_features=sf, method="to_overall"))
-            if not r_bt >= float(lo_bt) - TOL:
-                probs.append(("X1.constraint-vs-metric", f"{tag} demographic_parity_ratio(between)={r_bt!r} < {lo_bt}"))
-            if not r_ov >= float(lo_ov) - TOL:
-                probs.append(("X1.constraint-vs-metric", f"{tag} demographic_parity_ratio(to_overall)={r_ov!r} < {lo_ov}"))
+    cf = np.asarray(case["cf"]) if case.get("cf") is not None else None
+    for st in strata_of(case):
+        mask = np.ones(len(y), dtype=bool) if st is None else (cf == st)
+        where = "" if st is None else f" [stratum {st!r}]"
+        ys, hs, ss = y[mask], hp[mask], sf[mask]
+        if ratio is None:
+            # what the stratum's own entries of gamma allow (tightness: the to_overall difference IS their maximum)
+            own = float(max(v for k, v in want.items() if st is None or k[1].startswith(f"control={st},")))
+            for name, fn in named_metrics(moment, None):
+                d_ov, d_bt = float(fn(ys, hs, ss, "to_overall")), float(fn(ys, hs, ss, "between_groups"))
+                if not d_ov <= eps_star + TOL:
+                    probs.append(("X1.constraint-vs-metric", f"{tag} {name}(to_overall){where}={d_ov!r} > eps*={eps_star!r}"))
+                if not d_bt <= 2 * eps_star + TOL:
+                    probs.append(("X1.constraint-vs-metric", f"{tag} {name}(between_groups){where}={d_bt!r} > 2 eps*={2 * eps_star!r}"))
+                if name != "equal_opportunity_difference" or moment == "tpr":
+                    if abs(d_ov - own) > TOL:
+                        probs.append(("X1.constraint-vs-metric", f"{tag} {name}(to_overall){where}={d_ov!r} != max gamma of the stratum={own!r}"))
+        elif moment != "erp":
+            e = max(F(0), epsx)          # the theorems need eps >= 0; gamma <= max(gamma, 0) entrywise
+            los_bt, los_ov = [], []
+            for ev, lab in label_events(moment):
+                _, m = exact_rates(case, h, lab, st, moment)
+                if m is None or m <= 0:
+                    los_bt = None
+                    break
+                los_bt.append(r * (r * m - e) / (m + e))
+                los_ov.append((r * m - e) / m)
+            if los_bt is None:
+                if stats is not None:
+                    stats["ratio:overall rate 0 (bound not applicable)"] += 1
+                continue
+            lo_bt, lo_ov = min(los_bt), min(los_ov)
+            for name, fn in named_metrics(moment, ratio):
+                r_bt, r_ov = float(fn(ys, hs, ss, "between_groups")), float(fn(ys, hs, ss, "to_overall"))
+                if not r_bt >= float(lo_bt) - TOL:
+                    probs.append(("X1.constraint-vs-metric", f"{tag} {name}(between){where}={r_bt!r} < {lo_bt}"))
+                if not r_ov >= float(lo_ov) - TOL:
+                    probs.append(("X1.constraint-vs-metric", f"{tag} {name}(to_overall){where}={r_ov!r} < {lo_ov}"))
+            if stats is not None:
+                stats[f"ratio:{moment} bound {'positive' if lo_bt > 0 else 'vacuous (<= 0)'}"] += 1
     return probs, eps_star
+
+
+def check_objective(case, h, costs, tag=""):
+    """ErrorRate(costs).gamma(h) against the exact cost-weighted error (C06.errorRate_gamma_hard)"""
+    import numpy as np
+    X, y, _ = containers(case)
+    obj = mk_objective(costs)
+    obj.load_data(X, y, **fit_kwargs(case))
+    hv = np.asarray([float(v) for v in h])
+    got = float(obj.gamma(lambda _X: hv).iloc[0])
+    want = exact_error(case, h, costs)
+    if abs(got - float(want)) > TOL:
+        return [("X1.gamma-dictionary", f"{tag} ErrorRate(costs={costs}).gamma={got!r} expected {want}")]
+    return []
 
 
 # ------------------------------------------------------------------------------------------- GridSearch
@@ -172,20 +339,39 @@ def check_grid(case, stats):
     import fairlearn.reductions as red
     from .learners import ExactLearner
     X, y, sf = containers(case)
-    ratio = case["ratio"] if case["moment"] == "dp" else None
+    ratio = case["ratio"]
     cw = F(case["cw"])
+    probs = []
+    # direct stream: two random hard predictors against the other moments (difference and ratio form), and the objective
+    n = len(case["y"])
+    others = [m for m in MOMENTS if m != case["moment"]]
+    for j, h in enumerate(case.get("hs", [])):
+        if j == 0:
+            todo = [(others[n % len(others)], None), ("erp", None)]
+        elif j == 1:
+            m = others[(n + 1) % len(others)]
+            todo = [(m, case.get("direct_ratio") if m != "erp" else None)]
+        else:
+            todo = [(["dp", "tpr", "fpr", "eo"][(n + j) % 4], case.get("direct_ratio") or "3/4")]
+        for m, rt in todo:
+            pr, _ = check_constraint_vs_metric(case, h, m, rt, tag=f"direct predictor {j}", stats=stats)
+            probs += pr
+            stats[f"direct:{m}{'/ratio' if rt else ''}{'/cf' if case.get('cf') else ''}"] += 1
+        if j < 2:
+            probs += check_objective(case, h, case.get("costs"), tag=f"direct predictor {j}")
+    if probs:
+        return probs
     gs = red.GridSearch(ExactLearner(case["kind"]), mk_moment(case["moment"], case["eps"], ratio),
                         grid_size=case["grid_size"], constraint_weight=float(cw))
     try:
-        gs.fit(X, y, sensitive_features=sf)
+        gs.fit(X, y, **fit_kwargs(case))
     except ValueError:
         stats["grid:ValueError(F12 family)"] += 1
         return []
-    probs = []
     maxg = []
     for k, p in enumerate(gs.predictors_):
         h = [int(v) for v in np.asarray(p.predict(X)).reshape(-1)]
-        pr, eps_star = check_constraint_vs_metric(case, h, case["moment"], ratio, tag=f"grid predictor {k}")
+        pr, eps_star = check_constraint_vs_metric(case, h, case["moment"], ratio, tag=f"grid predictor {k}", stats=stats)
         probs += pr
         if eps_star is None:
             return probs
@@ -193,6 +379,9 @@ def check_grid(case, stats):
         col = gs.gammas_[gs.gammas_.columns[k]]
         if abs(float(col.max()) - eps_star) > TOL:
             probs.append(("X1.grid-selection", f"gammas_[{k}].max()={float(col.max())!r} but gamma(predictor)={eps_star!r}"))
+        # ... and the stored objective is the exact 0/1 error of the predictor
+        if abs(float(gs.objectives_[k]) - float(exact_error(case, h))) > TOL:
+            probs.append(("X1.grid-selection", f"objectives_[{k}]={float(gs.objectives_[k])!r} but the error of the predictor is {exact_error(case, h)}"))
         maxg.append(eps_star)
         stats["grid:predictor satisfies bound" if eps_star <= float(F(case["eps"])) + TOL else "grid:predictor violates bound"] += 1
     losses = [(1 - float(cw)) * float(gs.objectives_[k]) + float(cw) * maxg[k] for k in range(len(maxg))]
@@ -203,7 +392,11 @@ def check_grid(case, stats):
         probs.append(("X1.grid-selection", f"cw=1: selected max gamma {maxg[b]!r} not the smallest of {maxg!r}"))
     if cw == 1 and min(maxg) <= float(F(case["eps"])) + TOL and not maxg[b] <= float(F(case["eps"])) + TOL:
         probs.append(("X1.grid-selection", "cw=1: a trained predictor satisfies the bound but the selected one does not"))
+    # C09.fit_selected_gammaLe, any cw in (0,1]: selected max gamma <= (smallest max gamma) + (1-cw)/cw
+    if maxg[b] > min(maxg) + float((1 - cw) / cw) + TOL:
+        probs.append(("X1.grid-selection", f"cw={cw}: selected max gamma {maxg[b]!r} > min {min(maxg)!r} + (1-cw)/cw"))
     stats[f"grid:npred={min(len(maxg), 9)}"] += 1
+    stats[f"grid:moment={case['moment']}{'/ratio' if ratio else ''}{'/cf' if case.get('cf') else ''}"] += 1
     return probs
 
 
@@ -224,7 +417,7 @@ def check_threshold(case, stats):
     exp = to._pmf_predict(X, sensitive_features=sf)[:, 1]
     moment = {"demographic_parity": "dp", "selection_rate_parity": "dp", "true_positive_rate_parity": "tpr",
               "false_positive_rate_parity": "fpr", "equalized_odds": "eo"}[case["thr_constraint"]]
-    c2 = dict(case, x=[0] * len(case["y"]))
+    c2 = dict(case, x=[0] * len(case["y"]), cf=None)     # ThresholdOptimizer has no control features
     gam, _ = real_gamma(mk_moment(moment, "1/100"), c2, [float(v) for v in exp])
     probs = []
     worst = float(np.abs(np.asarray(gam, dtype=float)).max())
@@ -245,18 +438,27 @@ def check_threshold(case, stats):
 
 # ------------------------------------------------------------------------------------------- ExponentiatedGradient
 def check_eg(case, stats):
+    probs = run_eg(case, stats, max_iter=30, eta0=2.0, pre="eg")
+    hard = case.get("hard")
+    if hard and not probs:
+        probs += run_eg(hard, stats, max_iter=hard["max_iter"], eta0=hard["eta0"], pre="eg-hard")
+    return probs
+
+
+def run_eg(case, stats, max_iter, eta0, pre):
     import numpy as np
     import fairlearn.metrics as fm
     import fairlearn.reductions as red
-    from .learners import ExactLearner
+    from .learners import ExactLearner, hypotheses
     X, y, sf = containers(case)
     eps = F(case["eps"])
-    eg = red.ExponentiatedGradient(ExactLearner("all"), mk_moment(case["moment"], case["eps"]), eps=float(eps),
-                                   max_iter=30, nu=1e-6)
+    moment, costs = case["moment"], case.get("costs")
+    eg = red.ExponentiatedGradient(ExactLearner("all"), mk_moment(moment, case["eps"]), eps=float(eps),
+                                   max_iter=max_iter, nu=1e-6, eta0=eta0, objective=mk_objective(costs))
     try:
-        eg.fit(X, y, sensitive_features=sf)
+        eg.fit(X, y, **fit_kwargs(case))
     except ValueError:
-        stats["eg:ValueError(F14 family)"] += 1
+        stats[f"{pre}:ValueError(F14 family)"] += 1
         return []
     preds = {i: np.asarray(eg.predictors_[i].predict(X)).reshape(-1).astype(float) for i in eg.predictors_.index}
     w = {i: float(eg.weights_[i]) for i in eg.weights_.index}
@@ -264,35 +466,70 @@ def check_eg(case, stats):
     via_pmf = eg._pmf_predict(X)[:, 1]
     probs = []
     if float(np.abs(expq - via_pmf).max()) > 1e-9:
-        probs.append(("X1.eg-certificate-vs-metric", "weights_-mixture of predictors_ != _pmf_predict"))
+        probs.append(("X1.eg-certificate-vs-metric", f"{pre}: weights_-mixture of predictors_ != _pmf_predict"))
     g = float(eg.best_gap_)
     B = 1 / float(eps)
     slack = (1 + 2 * g) / B
-    gam, bnd = real_gamma(mk_moment(case["moment"], case["eps"]), case, [float(v) for v in expq])
+    gam, bnd = real_gamma(mk_moment(moment, case["eps"]), case, [float(v) for v in expq])
     viol = float((gam - bnd).max())
     if viol > slack + TOL:
-        probs.append(("X1.eg-certificate-vs-metric", f"max(gamma(Q)-bound)={viol!r} > (1+2*best_gap_)/B={slack!r}"))
+        probs.append(("X1.eg-certificate-vs-metric", f"{pre}: max(gamma(Q)-bound)={viol!r} > (1+2*best_gap_)/B={slack!r}"))
+    # gamma(Q) itself is the first-principles gamma of the expected predictions (affinity of gamma)
+    expq_x = [F(float(v)).limit_denominator(10 ** 12) for v in expq]
+    want = exact_gamma(case, expq_x, moment)
+    for key, wv in want.items():
+        if key not in gam.index:
+            probs.append(("X1.eg-certificate-vs-metric", f"{pre}: gamma(Q) has no entry {key}"))
+            break
+        if abs(float(gam[key]) - float(wv)) > 1e-7:
+            probs.append(("X1.eg-certificate-vs-metric", f"{pre}: gamma(Q)[{key}]={float(gam[key])!r} but the expected group rates give {float(wv)!r}"))
+            break
+    # C08.saddle_error: error(Q) <= error(h') + 2 best_gap_ for every FEASIBLE classifier h' of the class
+    # (the class of ExactLearner('all') = all labelings of the feature values; the constants are always feasible)
+    vals = sorted(set(case["x"]))
+    err_q = float(exact_error(case, expq_x, costs))
+    best_feas = None
+    for lab in hypotheses("all", len(vals)):
+        hh = [lab[vals.index(v)] for v in case["x"]]
+        if max(exact_gamma(case, hh, moment).values()) <= eps:
+            e1 = exact_error(case, hh, costs)
+            best_feas = e1 if best_feas is None else min(best_feas, e1)
+    if best_feas is None:
+        stats[f"{pre}:no feasible deterministic classifier"] += 1
+    elif err_q > float(best_feas) + 2 * g + 1e-7:
+        probs.append(("X1.eg-certificate-vs-metric",
+                      f"{pre}: error(Q)={err_q!r} > best feasible deterministic error {best_feas} + 2*best_gap_={2 * g!r} (costs={costs})"))
     yv, sv = np.asarray(case["y"]), np.asarray(case["sf"])
+    cf = np.asarray(case["cf"]) if case.get("cf") is not None else None
     e2 = float(eps) + slack
-    for ev, lab in label_events(case["moment"]):
-        mask = np.ones(len(yv), dtype=bool) if lab is None else (yv == lab)
-        mf = fm.MetricFrame(metrics=fm.mean_prediction, y_true=yv[mask], y_pred=expq[mask], sensitive_features=sv[mask])
-        d_bt, d_ov = float(mf.difference(method="between_groups")), float(mf.difference(method="to_overall"))
-        if d_ov > e2 + TOL:
-            probs.append(("X1.eg-certificate-vs-metric", f"{ev}: mean_prediction difference(to_overall)={d_ov!r} > eps+(1+2g)/B={e2!r}"))
-        if d_bt > 2 * e2 + TOL:
-            probs.append(("X1.eg-certificate-vs-metric", f"{ev}: mean_prediction difference(between)={d_bt!r} > 2(eps+(1+2g)/B)={2 * e2!r}"))
-        # sharper, also proved: with eps' = max gamma(Q) the item-1 bounds hold for the expected predictions
-        es = float(max(gam))
-        if d_ov > es + TOL or d_bt > 2 * es + TOL:
-            probs.append(("X1.constraint-vs-metric", f"EG expected predictions, {ev}: differences {d_ov!r}/{d_bt!r} vs max gamma(Q)={es!r}"))
+    u = np.asarray([float(v) for v in utility(case, expq_x, moment)])     # predictions, or expected errors (erp)
+    es = float(max(gam))
+    for st in strata_of(case):
+        for ev, lab in label_events(moment):
+            mask = np.ones(len(yv), dtype=bool) if lab is None else (yv == lab)
+            if st is not None:
+                mask &= (cf == st)
+            name = event_name(st, ev)
+            mf = fm.MetricFrame(metrics=fm.mean_prediction, y_true=yv[mask], y_pred=u[mask], sensitive_features=sv[mask])
+            d_bt, d_ov = float(mf.difference(method="between_groups")), float(mf.difference(method="to_overall"))
+            if d_ov > e2 + TOL:
+                probs.append(("X1.eg-certificate-vs-metric", f"{pre}: {name}: mean_prediction difference(to_overall)={d_ov!r} > eps+(1+2g)/B={e2!r}"))
+            if d_bt > 2 * e2 + TOL:
+                probs.append(("X1.eg-certificate-vs-metric", f"{pre}: {name}: mean_prediction difference(between)={d_bt!r} > 2(eps+(1+2g)/B)={2 * e2!r}"))
+            # sharper, also proved: with eps' = max gamma(Q) the item-1 bounds hold for the expected predictions
+            if d_ov > es + 1e-7 or d_bt > 2 * es + 1e-7:
+                probs.append(("X1.constraint-vs-metric", f"{pre}: EG expected predictions, {name}: differences {d_ov!r}/{d_bt!r} vs max gamma(Q)={es!r}"))
     # every stored hard predictor individually
-    for i in list(preds)[:4]:
-        pr, _ = check_constraint_vs_metric(case, [int(v) for v in preds[i]], case["moment"], None, tag=f"EG predictor {i}")
+    for i in list(preds)[:3]:
+        pr, _ = check_constraint_vs_metric(case, [int(v) for v in preds[i]], moment, None, tag=f"{pre} predictor {i}")
         probs += pr
-    stats[f"eg:npred={min(len(w), 9)}"] += 1
-    stats["eg:gap<1e-6" if g < 1e-6 else "eg:gap>=1e-6"] += 1
-    stats["eg:constraint active" if viol > -1e-9 else "eg:constraint slack"] += 1
+    stats[f"{pre}:npred={min(len(w), 9)}"] += 1
+    stats[f"{pre}:gap<1e-6" if g < 1e-6 else (f"{pre}:gap<1e-2" if g < 1e-2 else f"{pre}:gap>=1e-2")] += 1
+    stats[f"{pre}:constraint violated by Q" if viol > 1e-9 else (f"{pre}:constraint active" if viol > -1e-9 else f"{pre}:constraint slack")] += 1
+    stats[f"{pre}:moment={moment}{'/cf' if case.get('cf') else ''}{'/costs' if costs else ''}"] += 1
+    if pre == "eg-hard":
+        stats[f"{pre}:max_iter={max_iter}"] += 1
+        stats[f"{pre}:certificate margin {'<10%' if viol > 0.9 * slack else ('<50%' if viol > 0.5 * slack else '>=50%')}"] += 1
     return probs
 
 
@@ -346,6 +583,7 @@ def main():
             with open(path, "w") as f:
                 json.dump({"relation": rel, "message": msg, "case": case}, f, indent=1)
             print(f"VIOLATION property=X1 relation={rel} replay={path} :: {msg}")
+        print("crosscheck: counterexamples per relation: " + json.dumps(Counter(rel for rel, _, _ in failures), sort_keys=True))
         print(f"crosscheck: {len(failures)} counterexample(s) in {a.cases} cases")
         sys.exit(1)
     print(f"crosscheck: OK, {a.cases} cases, seed {a.seed}, no counterexample")
